@@ -417,7 +417,11 @@ def apply_steps(model_proto, steps):
     from onnxscript.rewriter import rewrite
     from onnxscript.rewriter.ort_fusions import _core as C
 
-    m = ir.serde.deserialize_model(model_proto)
+    # a private copy: the IR shares TensorProtos with the proto it was deserialized from and the passes rename /
+    # lift initializers in place (C15 proto_arg_mutated) - the caller's model must stay the original for the next pipeline
+    private = onnx.ModelProto()
+    private.CopyFrom(model_proto)
+    m = ir.serde.deserialize_model(private)
     F = _fusers()
     counts = {}
     for s in steps:
